@@ -244,7 +244,21 @@ def check (pid : String) (j : Json) : Except String Verdict := do
         r := r.fail s!"{what}: the control plane became reachable again but the client never opened a new stream"
         if pid = "C04" then r := r.specFail (some "C04.converges_after_reconnect: after stream creation failed for a whole reconnect budget the client never reconnects: no stream, no re-subscription, no further updates")
         return { nontrivial := true, mismatch := r.mismatch, specfail := r.spec.head? }
+      if jBoolD oj "burstHang" false then
+        let k := jNatD oj "returned" 0
+        r := r.fail s!"{what}: lookup number {k + 1} during the outage never returned; the model never blocks (the sender takes every request, with or without a stream)"
+        r := r.specFail (some s!"{if pid = "C05" then "C05.bounded_time" else "C04.lookups_during_outage"}: while the control plane was unreachable, lookup number {k + 1} of an uncached name never returned (no value, no error, far past its fetch timeout); it holds the manager lock, so every other lookup hangs behind it")
+        return { nontrivial := true, mismatch := r.mismatch, specfail := r.spec.head? }
       r := r.op cfg (.touch .eds "e1" now) what
+      -- lookups that missed during the outage: the first request is lost with the dead stream, the others are taken
+      -- and dropped by the sender (it has no stream); the re-subscription carries the names
+      let burst := (jStrList st "names").toOption.getD []
+      let mut firstB := true
+      for n in burst do
+        r := r.op cfg (.touch .eds n now) what
+        r := r.op cfg (.subscribe .eds n) what
+        r := r.op cfg (.senderSend firstB) s!"{what}: request taken while the stream is dead"
+        firstB := false
       r := r.op cfg .reconnectDrain what
       r := r.op cfg .publish what
       let newSid := o.streams
@@ -253,7 +267,9 @@ def check (pid : String) (j : Json) : Except String Verdict := do
       r := r.drain cfg
       r := r.compare o oj uni what
       if pid = "C04" then
-        r := r.specFail (c04reconnect prev o newSid)
+        -- the lookups that missed during the outage are subscribed; nothing else may have changed
+        let prevB : Obs := { prev with interest := fun rt => if rt = .eds && !burst.isEmpty then (prev.interest rt).map (fun ws => sortStr (ws ++ burst)) else prev.interest rt }
+        r := r.specFail (c04reconnect prevB o newSid)
         if jStrD oj "servedDuring" "" != "val:e1#1" then
           r := r.specFail (some s!"C04.cache_survives: during the outage the cached endpoint set was answered with {jStrD oj "servedDuring" ""}")
     | "stalled-reconnect" =>
